@@ -447,3 +447,38 @@ Definition prog_budk (k : oid) (price : N) (progs : list (list call)) : N :=
 (* the quantity of the order with id [k] resting in [m], if any *)
 Definition resting_k (k : oid) (m : list order) : N :=
   match lookup k m with Some o => tot o | None => 0 end.
+
+(* ---- C03 / C12: snapshot() — a call of four steps (three loads, one iteration) ---- *)
+(* the program points of a snapshot in progress: they own nothing and hold nothing
+   ([asd], [ownv], [ownh], [ownc], [ownb], [ownid], [fut] are all empty / 0 there) *)
+Definition snap_pc (p : pc) : Prop :=
+  match p with Sn1 | Sn2 _ | Sn3 _ _ | Sn4 _ _ _ => True | _ => False end.
+
+(* what a snapshot returns when its four steps all see the shared state [s] *)
+Definition snap_of (s : shared) : ret :=
+  RetSnap (sh_cvis s) (sh_chid s) (sh_ccnt s) (sort_ts (sh_map s)).
+(* ... and the four events it then emits *)
+Definition snap_events (s : shared) : list ev :=
+  [ELoad OVis (sh_cvis s); ELoad OHid (sh_chid s); ELoad OCnt (sh_ccnt s); EIter (lenN (sh_map s))].
+
+(* events that only read *)
+Definition read_ev (s : shared) (e : ev) : Prop :=
+  match e with
+  | ELoad x v => v = get_obj s x /\ (x = OVis \/ x = OHid \/ x = OCnt)
+  | EIter n => n = lenN (sh_map s)
+  | _ => False
+  end.
+
+(* the counters a snapshot has loaded so far / has returned are at most [B] (quantities) and [Bc] (count) *)
+Definition ret_snap_le (B Bc : N) (r : ret) : Prop :=
+  match r with RetSnap v h n _ => v <= B /\ h <= B /\ n <= Bc | _ => True end.
+Definition pc_snap_le (B Bc : N) (p : pc) : Prop :=
+  match p with
+  | Done r => ret_snap_le B Bc r
+  | Sn2 v => v <= B
+  | Sn3 v h => v <= B /\ h <= B
+  | Sn4 v h n => v <= B /\ h <= B /\ n <= Bc
+  | _ => True
+  end.
+Definition SnapLe (B Bc : N) (c : config) : Prop :=
+  Forall (fun t => Forall (ret_snap_le B Bc) (th_rets t) /\ pc_snap_le B Bc (th_pc t)) (cf_threads c).
